@@ -21,7 +21,9 @@ PROFILES = []
 SHRINK_SEP = None
 RULE = ("cases = every invocation shape (captures 0..4 in every &/&mut pattern and order [quick: full cross product for 0..2 captures, plus "
         "every pattern of 3 and 4 captures with one argument count, both call syntaxes, ret/none alternating, one body], 1..4 arguments, with/without "
-        "return type, recursive calls with/without trailing comma) x 3 body templates (arith-i64, vec-memo, mixed-types; each reads "
+        "return type, recursive calls with/without trailing comma) x 4 body templates (arith-i64, vec-memo, mixed-types, ref-args-effects "
+        "[arguments of reference type `&mut Vec`, `&[T]`, `&T`; closure called 3 times with fresh borrows in separate scopes, buffer read "
+        "between calls; argument expressions of the recursive calls mutate resp. read a mutable capture: bump a counter via a helper fn, pop a stack]; each reads "
         "the shared captures, updates the mutable ones before and after the recursive calls, branches on argument 0 and calls itself "
         "0, 1 or 2 times), each called 3 times with seed-dependent literal arguments; one evaluation = one (shape, body) instance "
         "compiled, run and compared with the explicit recursion on return values, final captured state and a hash of the activation "
@@ -49,7 +51,7 @@ MANIFEST = {
              "positional binding gives every captured name back to that very variable (rebinds_self); for every abstract body (interaction "
              "tree reading names, writing mutable captures, calling itself in either call syntax), fuel, arguments and store the generated closure and the explicit "
              "recursion return the same value and final store (generated_eq_explicit). PARTIAL: rustc itself is not modelled; compilation "
-             "and behaviour are checked on generated programs (thorough tier: all 496 shapes x 3 bodies + 384 larger shapes; quick tier: 160 shapes, 384 "
+             "and behaviour are checked on generated programs (thorough tier: all 496 shapes x 4 bodies + 384 larger shapes; quick tier: 160 shapes, 496 "
              "instances), and the model's wiring is compared with the real expansion of every instance."),
     "note": ("Proof (partial). Proved: the macro wiring for unboundedly many captures/arguments and generated = explicit recursion in a small "
              "semantics of frames and references. Tested, not proved (named residue): rustc's macro matcher, type checker, borrow checker - "
